@@ -843,6 +843,7 @@ class Gen:
             add(3, lambda d: ["cast", E("Z", d), "B"])
         elif t == "W":
             add(3, lambda d: ["bin", r.choice(["And", "Or", "Xor"]), E("W", d), E("W", d)])
+            add(2, lambda d: self.guarded(sc, d))
             add(1, lambda d: ["un", "Not", E("W", d)])
             eqt = SCALARS + (LISTS if self.lists else [])
             if not self.floats:
@@ -869,6 +870,27 @@ class Gen:
             add(1, lambda d: ["cast", E(et, d), t])
             add(2, lambda d: ["list", [E(et, d) for _ in range(r.randint(1, 3))]])
         return P
+
+    def guarded(self, sc, d):
+        """short-circuit guard in front of a right operand that traps or raises a Laufzeitfehler when evaluated:
+        n ungleich 0 ist und x modulo n ..., i <= Länge und l an der Stelle i ..."""
+        r = self.r
+        zs = [x for x, vt in sc.vars.items() if vt == "Z"]
+        n = V(r.choice(zs)) if zs and r.random() < 0.6 else I(r.choice([0, 0, 3]))
+        x = self.expr("Z", sc, min(d, 1))
+        ls = [v for v, vt in sc.vars.items() if vt in ("LZ", "T")] if self.lists else []
+        if ls and r.random() < 0.4:
+            l = V(r.choice(ls))
+            i = V(r.choice(zs)) if zs and r.random() < 0.5 else I(r.choice([0, 1, 2, 5, 9]))
+            inb = ["bin", "And", ["bin", "Ge", i, I(1)], ["bin", "Le", i, ["un", "Len", l]]]
+            elem_ok = ["bin", "Ne" if r.random() < 0.5 else "Eq", ["bin", "Index", l, i], I(1) if sc.vars[l[1]] == "LZ" else Ch(97)]
+            if r.random() < 0.5:
+                return ["bin", "And", inb, elem_ok]
+            return ["bin", "Or", ["un", "Not", inb], elem_ok]
+        test = ["bin", r.choice(["Eq", "Ne", "Lt"]), ["bin", "Mod", x, n], I(r.choice([0, 1]))]
+        if r.random() < 0.5:
+            return ["bin", "And", ["bin", "Ne", n, I(0)], test]
+        return ["bin", "Or", ["bin", "Eq", n, I(0)], test]
 
     def mixed_zb(self, sc, d):
         """Zahl with Byte (either order): the result is a Zahl"""
